@@ -7,10 +7,10 @@ that an ignore pattern can match part of a stack), removed at the end.
 Sub-spaces (each a complete product, simplest first; K = 2 quick / 3 thorough):
   src   file length {1,3,9,40} x failing line {1,2,5,middle,last-1,last} x statement shape (SHAPES)
         x verbosity (4) x UTF-8 on/off x ignore {none, lib/, matches nothing} x ANSI/plain, full mode
-  msg   ALL messages of <= K fragments x class {Exception, KeyError, library error} x simple/full
-        x verbosity (quick: normal,-vvv; thorough: all 4) x UTF-8 x ANSI/plain
+  msg   ALL messages of <= K fragments x {Exception, KeyError (message = repr), library error simple, library error full}
+        x verbosity (4) x UTF-8 x ANSI/plain
   chain explicit/implicit causes of depth 1..3 x verbosity x UTF-8 x ignore x ANSI/plain
-  rec   recursion {direct, 2-cycle, 3-cycle} in {app/, lib/} x depth {1,2,3,10,30,60} x verbosity x UTF-8 x ignore
+  rec   recursion {direct, 2-cycle, 3-cycle} in {app/, lib/} x depth {1,2,3,10,30,60} x verbosity x UTF-8 x ignore x ANSI/plain
   nosrc exec'd code / module whose file was deleted x verbosity x UTF-8 x ignore x ANSI/plain
   hl    Highlighter alone on every .py under $VERIF_REPO/src and the first 300 stdlib modules by sorted name
 """
@@ -191,7 +191,7 @@ def gen_source(L, T, shape):
 # ------------------------------------------------------------------------------------------------
 class Env(object):
     def __init__(self):
-        self.scratch = _trace.Scratch("c20")
+        self.scratch = _trace.Scratch("c04-c20")
         self.app = os.path.join(self.scratch.dir, "app")
         self.lib = os.path.join(self.scratch.dir, "lib")
         os.mkdir(self.app)
@@ -601,12 +601,11 @@ def cases(env, tier):
         for verb, utf8, ignore, ansi in itertools.product(VERB, (True, False), IGNORE, (False, True)):
             yield ["chain", explicit, depth, verb, utf8, ignore, ansi]
     for depth, pattern, where in itertools.product((1, 2, 3, 10, 30, 60), ("direct", "cycle2", "cycle3"), ("app", "lib")):
-        for verb, utf8, ignore in itertools.product(VERB, (True, False), IGNORE):
-            yield ["rec", where, pattern, depth, verb, utf8, ignore, False]
-    verbs = VERB if tier == "thorough" else ["normal", "-vvv"]
+        for verb, utf8, ignore, ansi in itertools.product(VERB, (True, False), IGNORE, (False, True)):
+            yield ["rec", where, pattern, depth, verb, utf8, ignore, ansi]
     for msg in _trace.messages(k):
         for cname, simple in (("Exception", False), ("KeyError", False), ("AppError", True), ("AppError", False)):
-            for verb, utf8, ansi in itertools.product(verbs, (True, False), (False, True)):
+            for verb, utf8, ansi in itertools.product(VERB, (True, False), (False, True)):
                 yield ["msg", cname, msg, simple, verb, utf8, ansi]
 
 
